@@ -268,7 +268,7 @@ func c07(args []string) int {
 		class  string
 		pairs  bool
 	}
-	pcases := []pcase{{"none", 1, "rand", true}, {"none", 16, "rand", true}, {"none", 64, "text", true}, {"lz4", 12, "rand", true},
+	pcases := []pcase{{"none", 0, "rand", true}, {"lz4", 0, "rand", true}, {"none", 1, "rand", true}, {"none", 16, "rand", true}, {"none", 64, "text", true}, {"lz4", 12, "rand", true},
 		{"lz4", 200, "zeros", true}, {"none", 200, "mix", true}, {"none", 4096, "rand", false}, {"lz4", 4096, "text", false}}
 	if *thorough {
 		pcases = append(pcases, pcase{"none", 256, "rand", true}, pcase{"none", 131071, "rand", false}, pcase{"lz4", 131071, "rep64", false}, pcase{"lz4", 65000, "text", false})
